@@ -17,7 +17,7 @@ EXPLANATION = (
     "later assignment by a callee or closure cannot change a value already read; (SHARED-CAPTURE) closures refer to captured "
     "variables by their own V<id> name (no copy at closure creation), so closures of one activation share them."
 )
-UNDECIDED = "run-time behaviour of preamble.lua helpers (they assign a few undeclared globals: reported as information by C18)."
+UNDECIDED = "run-time behaviour of preamble.lua helpers beyond GLOBAL-LEAK (a global temporary of a higher-order helper must not be held across a callback)."
 
 MANIFEST = dict(
     text=EXPLANATION + " Not decided: " + UNDECIDED,
